@@ -45,7 +45,12 @@ func encodeXterm(key vaxis.Key, deckpam bool, decckm bool) string {
 		}
 
 		if key.Keycode < unicode.MaxRune {
-			// Unicode keys
+			// Unicode keys: the text the key produced (a whole grapheme,
+			// or the character a lock or layout level turned the key
+			// into), else the key itself
+			if key.Text != "" {
+				return key.Text
+			}
 			return string(key.Keycode)
 		}
 	}
